@@ -203,7 +203,14 @@ def write_guard(repo: Repo) -> RuleRun:
             cur[i] = got
         r.check(ok, smooth, f"fixed={fixed_idx}: free points average over all neighbours", f"smooth(): {detail}", smooth.node, key=f"average:fixed={fixed_idx}")
     # fixing accumulates over calls
-    for label, seq in (("fix_indexes twice", [("i", [2]), ("i", [4])]), ("fix_points then fix_indexes", [("p", [3]), ("i", [1])]), ("fix_indexes then fix_points", [("i", [1]), ("p", [3])])):
+    for label, seq in (
+        ("fix_indexes twice", [("i", [2]), ("i", [4])]),
+        ("fix_points then fix_indexes", [("p", [3]), ("i", [1])]),
+        ("fix_indexes then fix_points", [("i", [1]), ("p", [3])]),
+        ("fix_indexes with the first and the last index", [("i", [0, 5])]),
+        ("fix_indexes([0]) alone", [("i", [0])]),
+        ("fix_points on the first point", [("p", [0])]),
+    ):
         grid_, pts_, js_ = _grid(repo, n, boundary, nb)
         this = Obj("smoother", cls=sm)
         ev = Evaluator(repo=repo, module=init.module, call_hook=np_hook({"methods": {"backport"}, "calls": []}))
@@ -252,7 +259,9 @@ def write_guard(repo: Repo) -> RuleRun:
     # average while the first ones are far from theirs (an early exit that looks at one point only would stop after one sweep)
     nb2 = {0: [1, 4], 1: [0, 2], 2: [1, 3], 3: [2, 5], 4: [5, 0], 5: [3, 4]}
     start = [0.0, 9.0, 9.0, 9.0, 5.0, 10.0]
-    for iters in (1, 3):
+    for iters, drift in ((1, 0.0), (3, 0.0), (7, 1.0), (150, 1.0), (200, 1.0)):
+        # drift > 0: the model's 'average' is mean + drift * (number of averages taken so far), so the points never come to rest and the result tells the number of
+        # sweeps exactly - also for counts far beyond what Laplace smoothing needs to converge
         grid_ = Obj("grid")
         pts_ = list(start)
         grid_.set("points", pts_)
@@ -266,11 +275,14 @@ def write_guard(repo: Repo) -> RuleRun:
             j.set("neighbours", [js_[k] for k in nb2.get(i, [])])
         grid_.set("junctions", js_)
 
-        def fhook(ev, call, name):
+        calls_ = {"n": 0}
+
+        def fhook(ev, call, name, drift=drift, calls_=calls_):
             nm = (name or "").split(".")[-1]
             if nm in ("average", "mean") and call.args:
                 vals = ev.eval(call.args[0])
-                return sum(vals) / len(vals)
+                calls_["n"] += 1
+                return sum(vals) / len(vals) + drift * calls_["n"]
             if nm == "norm" and call.args:
                 return abs(ev.eval(call.args[0]))
             if nm in ("array", "asarray") and call.args:
@@ -280,19 +292,21 @@ def write_guard(repo: Repo) -> RuleRun:
             return NO_MATCH
 
         this = Obj("smoother", cls=sm)
-        ev = Evaluator(repo=repo, module=init.module, call_hook=fhook)
+        ev = Evaluator(repo=repo, module=init.module, call_hook=fhook, max_steps=400000)
         ev.float_arith = True
         orig = ev.obj_attr
         ev.obj_attr = lambda obj, attr, orig=orig, grid_=grid_, js_=js_: grid_.get("points")[obj.get("index")] if (attr == "point" and obj in js_) else orig(obj, attr)  # type: ignore[method-assign]
         _run(ev, init, [this, grid_])
         _run(ev, smooth, [this, iters])
         ref = list(start)
+        k_ = 0
         for _ in range(iters):
             for i in (1, 2, 3, 4):
-                ref[i] = sum(ref[k] for k in nb2[i]) / len(nb2[i])
+                k_ += 1
+                ref[i] = sum(ref[k] for k in nb2[i]) / len(nb2[i]) + drift * k_
         got = list(grid_.get("points"))
         same = all(isinstance(g, (int, float)) and abs(g - w) < 1e-9 for g, w in zip(got, ref))
-        r.check(same, smooth, f"{iters} sweep(s) carried out", f"smooth(iterations={iters}) on the 1-D model {start} (neighbours {nb2}) gives {got}; {iters} Gauss-Seidel sweep(s) give {ref} - sweeps are skipped although free points are still away from their neighbours' average", smooth.node, key=f"sweeps:{iters}")
+        r.check(same, smooth, f"{iters} sweep(s) carried out" + (" (drifting model)" if drift else ""), f"smooth(iterations={iters}) on the 1-D model {start} (neighbours {nb2}) gives {got}; {iters} Gauss-Seidel sweep(s) give {ref} - sweeps are skipped although free points are still away from their neighbours' average", smooth.node, key=f"sweeps:{iters}")
     return r
 
 
